@@ -117,7 +117,8 @@ def collisions(draw):
                                        'variable-before'])),
         'role': draw(st.sampled_from(['parameter', 'parameter-assigned',
                                       'local', 'loop-index', 'cycle-index',
-                                      'as-variable'])),
+                                      'as-variable',
+                                      'parameter-given-nothing'])),
         'outer_value': draw(st.integers(50, 99)),
         'argument': draw(st.integers(1, 9)),
         'delta': draw(st.integers(1, 5)),
@@ -136,6 +137,12 @@ def collision_script(case):
         routine = 'define q_f with {0} begin assign {0} {{{0} + {1}}} ' \
             'println {0} return {0} end'.format(name, delta)
         inside = [arg + delta, arg + delta]
+    elif role == 'parameter-given-nothing':
+        # the argument is a call that returns nothing: still a parameter
+        routine = 'define q_none begin return end define q_f with {0} ' \
+            'begin assign {0} {1} println {0} return {0} end'.format(
+                name, delta)
+        inside = [delta, delta]
     elif role == 'local':
         routine = 'define q_f with q_p begin assign {0} {{q_p + {1}}} ' \
             'println {0} return {{{0} + 1}} end'.format(name, delta)
@@ -156,7 +163,8 @@ def collision_script(case):
                     'macro-after': 'define {} {}'.format(name, outer),
                     'variable-before': 'assign {} {}'.format(name, outer)}[
                         case['outer']]
-    call = 'println [q_f {}] println {}'.format(arg, name)
+    call = 'println [q_f {}] println {}'.format(
+        '[q_none]' if role == 'parameter-given-nothing' else arg, name)
     if case['outer'] == 'macro-after':
         lines = [routine, define_outer, call]
     else:
